@@ -189,7 +189,10 @@ func (s *Scanner) scanAt() (token.Token, error) {
 	peek := s.peekRune()
 	if !s.isLetter(peek) {
 		if peek == 0 {
-			return token.NewIllegalToken(s.ch, s.positionAt()), nil
+			tok := token.NewIllegalToken(s.ch, s.positionAt())
+			// consume the '@', otherwise NextToken never reaches EOF
+			s.readRune()
+			return tok, nil
 		}
 		return token.ErrorToken, s.assertExpectedString(string(peek), token.IDENT.String())
 	}
